@@ -11,7 +11,7 @@ CHECKS = {
     "C01": dict(level="exploration", tech="runtime monitoring: sequential conformance histories vs executable admission model at logical quiescence + offline interval checker over the event log; concurrent stress histories with snapshot invariant and porcupine linearizability check of the recorded API history",
                 text="Every generated history (all admission classes, unstartable jobs, slow-to-stop tasks, cancels, delay expiry) is executed on the real runner; the executing set after every operation, every task interval [run-enter, run-exit] and every reported job span are checked against the concurrency limit and the model; histories with saves whose retention rewrites the job lists (also with concurrent schedulers), reloads that change the limit, restarts, and real INT-ignoring process trees are included.", ref="4 C01"),
     "C02": dict(level="exploration", tech="runtime monitoring: per-(job,task) exactly-once counter and dependency-order checker over the runner event log + task-level simulation compared after every step; all 543 labelled 4-node DAGs in thorough",
-                text="Random and hand-picked graph shapes with permuted names (so that the topological sort is the only protection against false cycles), cyclic variants and reserved-variable jobs queued among ordinary jobs; every completion order is driver-chosen through task gates; real-runner cases cover failing commands and programs the operating system refuses to start (what a script line did before ran exactly once).", ref="4 C02"),
+                text="Random and hand-picked graph shapes with permuted names (so that the topological sort is the only protection against false cycles), cyclic variants and reserved-variable jobs queued among ordinary jobs; every completion order is driver-chosen through task gates; real-runner cases cover failing commands and programs the operating system refuses to start (what a script line did before ran exactly once). Dependencies named twice in depends_on are part of the generated graphs.", ref="4 C02"),
     "C03": dict(level="exploration", tech="runtime monitoring: no-idle-slot-at-logical-quiescence and all-terminal-after-drain oracles over conformance histories",
                 text="Liveness restated as bounded progress at logical instants (no wall clock): no stranded job at quiescence, all jobs terminal after drain; histories biased to cancels of waiting jobs, delays, unstartable heads; runners restarted on prepared stores; bursts of 33..260 waiting jobs. Slot-freeing events (task end / failure / cancel of the running job) injected inside the accept path of a schedule request, judged by order-agnostic oracles.", ref="4 C03"),
     "C04": dict(level="exploration", tech="runtime monitoring: directed sweep over cancel instants using hook H1 to park the scheduler loop at every iteration boundary (delivery observed via runner Cancel events), monitored and REAL task runner; offline per-cancel oracle over the event log",
@@ -21,7 +21,7 @@ CHECKS = {
     "C06": dict(level="exploration", tech="runtime monitoring: FIFO oracle over recorded Created/Start of all jobs (sequential and concurrent histories) + waiting-list equality with the model after every step",
                 text="Histories with up to ~15 waiting jobs, cancels in the middle of the queue, unstartable heads, concurrency 1-3.", ref="4 C06"),
     "C07": dict(level="exploration", tech="runtime monitoring with REAL timers: monotonic timestamp arithmetic (lower bound), logical quiescence after observed delay-handler return (hook H2) for 'no additional delay', replaced-never-runs / newest-runs oracles over the event log",
-                text="Bursts of 1-8 requests with gaps around the delay, busy and idle pipelines, cancels inside the burst, 4-client stress bursts; plus logically fired delays in conformance histories (also with retention, reloads, and on runners restarted on every persisted snapshot / prepared stores); a delay that passes while a slow store is busy with a save.", ref="4 C07"),
+                text="Bursts of 1-8 requests with gaps around the delay, busy and idle pipelines, cancels inside the burst, 4-client stress bursts; plus logically fired delays in conformance histories (also with retention, reloads, and on runners restarted on every persisted snapshot / prepared stores); a delay that passes while a slow store is busy with a save. Directed case: burst on a delayed pipeline that was undefined (and saved) while its job ran.", ref="4 C07"),
     "C08": dict(level="exploration", tech="runtime monitoring: driver-chosen task outcomes as ground truth, task-level simulation vs tasks inside the monitored runner after every step, predicted verdict vs terminal ReadJob snapshot and /job/detail JSON",
                 text="Failure/allow_failure/non-exit-error assignments x both fail-fast settings x release orders x external cancels; verdict soundness (plain success only if all tasks succeeded or failed with allow_failure) is checked on every finished job; real-runner cases: tasks that fail before their script runs, commands killed by signals, programs that cannot be started (allowed or not).", ref="4 C08"),
     "C09": dict(level="fault_enumeration", tech="fault injection with strace: SIGKILL / ENOSPC / EIO / EMFILE injected at EVERY openat/write/close/rename system call of the saving thread of a victim process (counted in a dry run), random-instant SIGKILLs, inspection from a fresh process; in-process reader-vs-writer monitor",
@@ -30,30 +30,30 @@ CHECKS = {
     "C10": dict(level="fault_enumeration", tech="runtime monitoring over save points: recording wrapper around the real JsonDataStore copies every persisted snapshot of a conformance history; a fresh runner is started on each copy and compared field by field (decoded values) with the live runner; prepared store files for states that exist only between two runner steps",
                 text="Every persisted snapshot of every history (explicit saves at every position + persist loop) is a restart point; arbitrary JSON payloads incl. floats with 17 significant digits; malformed request bodies; saves that fail in the encoder leave the last good snapshot loadable. After every explicit save the store is compared with the reported state in both directions; real-store case in which a save leaves no job at all (pipelines removed, retention period) before the restart.", ref="4 C10"),
     "C11": dict(level="exploration", tech="runtime monitoring: offline oracle keyed on the Shutdown return event over the event log + recording store (last snapshot that reached the store vs reported state at return), concurrent clients and in-flight slow saves; heartbeat-clock monitor for the persist loop",
-                text="States at shutdown begin from conformance prefixes x graceful/forced x racing schedule/cancel/save clients (also over HTTP: 503) x slow saves; persist loop checked with a 10 s heartbeat limit for its 3 s period; the real binary under SIGINT / SIGTERM / repeated SIGINT; the real JSON store after saves that failed while its directory was away; changes made while a graceful shutdown waits reach the store within the interval. The store is judged at the instant Shutdown returns (last save completed by then) and in the end; directed case with a save held inside a slow store and further saves waiting for their turn.", ref="4 C11"),
+                text="States at shutdown begin from conformance prefixes x graceful/forced x racing schedule/cancel/save clients (also over HTTP: 503) x slow saves; persist loop checked with a 10 s heartbeat limit for its 3 s period; the real binary under SIGINT / SIGTERM / repeated SIGINT; the real JSON store after saves that failed while its directory was away; changes made while a graceful shutdown waits reach the store within the interval. The store is judged at the instant Shutdown returns (last save completed by then) and in the end; directed case with a save held inside a slow store and further saves waiting for their turn. Directed case: jobs waiting next to free slots (after a reload raised the concurrency) when the shutdown begins are canceled, not started.", ref="4 C11"),
     "C12": dict(level="exploration", tech="runtime monitoring: before/after oracle around every SaveToStore over generated job populations on the real JsonDataStore + FileOutputStore (API view, store file, recursive hash of the log tree)",
-                text="retention_count x retention_period x loaded (shuffled file order) and live jobs in every state x removed pipelines x repeated saves; ages have >= 7 min margins, a 1 ms period makes live unfinished jobs 'too old'; jobs without log directory, runners without output store / data store, failing saves. Several SaveToStore calls at the same time on a slow store: store == API whenever one of them returns.", ref="4 C12"),
+                text="retention_count x retention_period x loaded (shuffled file order) and live jobs in every state x removed pipelines x repeated saves; ages have >= 7 min margins, a 1 ms period makes live unfinished jobs 'too old'; jobs without log directory, runners without output store / data store, failing saves. Several SaveToStore calls at the same time on a slow store: store == API whenever one of them returns. Populations hold jobs that ended long after they were created (age and order are by creation).", ref="4 C12"),
     "C13": dict(level="exploration", tech="Go race detector (-race, implies checkptr) over measured-coverage stress histories; report blocks counted in GORACE log files and de-duplicated by frame pair",
                 text="All exported operations plus job/timer/persist goroutines in flight at once, with retention so that saves delete, monitored and real task runner, the real FileOutputStore shared by concurrent jobs / removing saves / a log reader (incl. a task whose log file cannot be created), a forced shutdown against removing saves, a second runner sharing the definitions object; the run is inconclusive unless every lock-conflicting operation pair overlapped at least 20 times.", ref="4 C13",
                 note="Trusted base: the Go race detector and runtime. Only races on paths the workload reaches are seen; the evidence file lists the measured overlap matrix."),
     "C14": dict(level="exploration", tech="runtime monitoring of the real http.Handler: exhaustive product of discovered routes (chi.Walk via hook H3) x methods x invalid credential classes x transports x profiling settings, with planted data markers and a before/after state monitor, plus a positive control",
-                text="The finite product routes x 7 methods x ~27 invalid credential classes x 3 transports x profiling on/off x 3 secrets is enumerated completely in both tiers (thorough repeats it with fresh random token mutations); every cookie or token a rejected response carries is tried as a credential; the real binary with the profiling flag absent / false.", ref="4 C14",
+                text="The finite product routes x 7 methods x ~27 invalid credential classes x 3 transports x profiling on/off x 3 secrets is enumerated completely in both tiers (thorough repeats it with fresh random token mutations); every cookie or token a rejected response carries is tried as a credential; the real binary with the profiling flag absent / false. The real binary is started in four secret-source configurations (command line / environment over an old config file, file only, generated): tokens signed with the secret that is not in force are refused on every route.", ref="4 C14",
                 note="Trusted base: chi's route walk lists every registered route; the listener (bind address, TLS) is outside the handler."),
     "C15": dict(level="exploration", tech="runtime monitoring: API flags (schedulable/running) vs outcome of the next request and vs job list at every quiescent step",
-                text="The schedulable flag is read immediately before every schedule request of the history and compared with what the request then returns; running flag, presence, ordering and timestamps are checked on every snapshot; malformed schedule bodies over HTTP are refused without trace and leave the listing decodable.", ref="4 C15"),
+                text="The schedulable flag is read immediately before every schedule request of the history and compared with what the request then returns; running flag, presence, ordering and timestamps are checked on every snapshot; malformed schedule bodies over HTTP are refused without trace and leave the listing decodable. created <= start <= end and task start <= task end are also judged on every restarted runner.", ref="4 C15"),
     "C16": dict(level="exploration", tech="runtime monitoring: the monitored runner records the task.Task actually handed to it (commands, env, variables); compared with a deep copy of the definition taken when the schedule request returned; reload operations inside conformance histories (also with the loop parked between tasks via H1, and injected inside ScheduleAsync through the job-id generator); SIGUSR1 reload sequences on the real binary",
                 text="13 mutation operators applied at every point of a job's life; job list deep-equal across ReplaceDefinitions; per-job delay honoured; nothing stranded for pipelines that remain defined.", ref="4 C16"),
     "C17": dict(level="exploration", tech="runtime monitoring of LoadRecursively / Equals on generated inputs: round trip against the generator's own value, independent re-statement of the validity rules, single-constraint corruptions, reflection-driven single-field mutator for Equals",
-                text="Generated YAML trees over all fields (files may be symbolic links, one file > 1 MiB), 19 corruption kinds, every field x every applicable edit operator; an unknown field kind makes the run inconclusive instead of being skipped. String lists are also edited at their entry boundaries (merge / split / empty entries).", ref="4 C17",
+                text="Generated YAML trees over all fields (files may be symbolic links, one file > 1 MiB), 19 corruption kinds, every field x every applicable edit operator; an unknown field kind makes the run inconclusive instead of being skipped. String lists are also edited at their entry boundaries (merge / split / empty entries). Valid sets contain pipelines that say nothing (YAML null / {}).", ref="4 C17",
                 note="Trusted base: yaml.v2 for emitting the input files; reflection enumerates the fields so future fields are included."),
     "C18": dict(level="exploration", tech="runtime monitoring with REAL processes: every task command dumps its complete environment and rendered arguments; read back through the real FileOutputStore and compared with the three-level expectation",
                 text="Names over every subset of the three levels (incl. prefix-related names), hostile values, concurrent jobs with per-job variables, missing-variable and reserved-variable cases. The real binary is driven through SIGUSR1 reloads and the environment a command sees is read after every reload.", ref="4 C18",
                 note="Trusted base: /proc-free; the dump command is the harness binary re-executed by the real PgidExecutor. Template values use a shell-safe alphabet."),
     "C19": dict(level="exploration", tech="runtime monitoring with REAL processes: deterministic tagged byte-stream generator as task command, byte-exact comparison (length, SHA-256, first differing offset) of FileOutputStore.Reader and GET /job/logs with the recomputed streams",
-                text="Sizes 0..8 MiB, binary and line-structured payloads, several commands per task, concurrent tasks and jobs, failing and canceled writers (prefix property), hostile task names, descendants that write after their command exited, saves with retention while jobs write, the log API asked with other spellings of the job id. Fault case: the log file of one task cannot be created while its siblings have written / still write.", ref="4 C19",
+                text="Sizes 0..8 MiB, binary and line-structured payloads, several commands per task, concurrent tasks and jobs, failing and canceled writers (prefix property), hostile task names, descendants that write after their command exited, saves with retention while jobs write, the log API asked with other spellings of the job id. Fault case: the log file of one task cannot be created while its siblings have written / still write. Task-name pairs related through the escaping of the file output store (second task never ran).", ref="4 C19",
                 note="Trusted base: the generator is re-run in the harness to recompute the expected streams; stdout and stderr are compared separately."),
     "C20": dict(level="exploration", tech="runtime monitoring with REAL process trees: /proc scan for per-job environment markers at the instant the canceled job is first observed finished and after the kill timeout; heartbeat-clock bound",
-                text="23 tree shapes x 3 cancel instants x CancelJob / forced Shutdown x other jobs alongside; four shape signatures are known findings (processes that outlive the report by at most the kill timeout), everything surviving the kill timeout is a violation for every shape; kill timeouts 0 / negative / 150 ms / 700 ms / 5.5 s / 6.5 s (nothing alive when a forced Shutdown returns). Forced shutdown over 4-5 running jobs that all ignore the interrupt (every job finished within kill timeout + calibrated allowance).", ref="4 C20",
+                text="23 tree shapes x 3 cancel instants x CancelJob / forced Shutdown x other jobs alongside; four shape signatures are known findings (processes that outlive the report by at most the kill timeout), everything surviving the kill timeout is a violation for every shape; kill timeouts 0 / negative / 150 ms / 700 ms / 5.5 s / 6.5 s (nothing alive when a forced Shutdown returns). Forced shutdown over 4-5 running jobs that all ignore the interrupt (every job finished within kill timeout + calibrated allowance). Two shapes in which the interrupted leader prints a line while an interrupt-ignoring descendant holds the output.", ref="4 C20",
                 note="Trusted base: /proc (environ, stat) of this container; processes that leave the process group are excluded by the statement."),
 }
 
